@@ -3816,6 +3816,7 @@ type scopeEntry struct {
 	hadConst bool                // was there a previous l.localConsts[name]?
 	hadVar   bool                // was there a previous l.localIsVar[name]?
 	hadPtr   bool                // was there a previous l.localIsPtr[name]?
+	prevAST  parser.Expr         // previous l.localAbstractASTs[name] (nil if none)
 }
 
 // scopeFrame represents one lexical scope level.
@@ -3842,14 +3843,25 @@ func (l *Lowerer) popScope() {
 		} else {
 			delete(l.locals, e.name)
 		}
-		if !e.hadConst {
+		if e.hadConst {
+			l.localConsts[e.name] = true
+		} else {
 			delete(l.localConsts, e.name)
 		}
-		if !e.hadVar {
+		if e.hadVar {
+			l.localIsVar[e.name] = true
+		} else {
 			delete(l.localIsVar, e.name)
 		}
-		if !e.hadPtr {
+		if e.hadPtr {
+			l.localIsPtr[e.name] = true
+		} else {
 			delete(l.localIsPtr, e.name)
+		}
+		if e.prevAST != nil {
+			l.localAbstractASTs[e.name] = e.prevAST
+		} else {
+			delete(l.localAbstractASTs, e.name)
 		}
 	}
 }
@@ -3881,7 +3893,15 @@ func (l *Lowerer) scopeSet(name string) {
 		hadConst: hadConst,
 		hadVar:   hadVar,
 		hadPtr:   hadPtr,
+		prevAST:  l.localAbstractASTs[name],
 	})
+
+	// The new binding hides every attribute of the binding it shadows;
+	// the declaration that called scopeSet sets the attributes of its own.
+	delete(l.localConsts, name)
+	delete(l.localIsVar, name)
+	delete(l.localIsPtr, name)
+	delete(l.localAbstractASTs, name)
 }
 
 // lowerBlock converts a block statement to IR statements.
